@@ -87,10 +87,21 @@ func c04Mode(rc *RuleCtx) {
 	for _, n := range names {
 		f := ms[n]
 		eachCall(f, func(ci ssa.CallInstruction) {
-			if ci.Common().StaticCallee() != search {
+			var args []ssa.Value
+			switch sc := ci.Common().StaticCallee(); {
+			case sc == search:
+				args = callArgs(ci)
+			case sc != nil && sc.Pkg == f.Pkg && !isEntryPoint(sc) && len(sc.Blocks) > 0:
+				// an unexported helper that makes the walk for its caller: the path and the mode of the walk are what
+				// the helper computes from the arguments of this call (its body is evaluated with them)
+				pa, ma, ok := walkThroughHelper(sc, search, ci)
+				if !ok {
+					return
+				}
+				args = []ssa.Value{pa, ma}
+			default:
 				return
 			}
-			args := callArgs(ci)
 			// which string parameter of f is walked?
 			pidx := -1
 			si := 0
@@ -396,4 +407,80 @@ func c04Store(rc *RuleCtx) {
 			rc.bad(cons, f.Pos(), "Readlink returns something other than the stored target")
 		}
 	}
+}
+
+
+// walkThroughHelper: helper g calls the walk exactly once on every path that returns; the walk's path argument is one of
+// g's parameters and its mode argument evaluates to one constant when g's parameters are bound to the constant
+// arguments of the call `at`. Returns the caller's path argument and the mode constant.
+func walkThroughHelper(g, search *ssa.Function, at ssa.CallInstruction) (pathArg, modeArg ssa.Value, ok bool) {
+	var wc ssa.CallInstruction
+	n := 0
+	eachCall(g, func(ci ssa.CallInstruction) {
+		if ci.Common().StaticCallee() == search {
+			wc = ci
+			n++
+		}
+	})
+	if n != 1 {
+		return nil, nil, false
+	}
+	wargs := callArgs(wc)
+	if len(wargs) < 2 {
+		return nil, nil, false
+	}
+	actual := at.Common().Args
+	bind := func(v ssa.Value) ssa.Value {
+		if p, isP := strip(v).(*ssa.Parameter); isP {
+			for i, gp := range g.Params {
+				if gp == p && i < len(actual) {
+					return actual[i]
+				}
+			}
+		}
+		return nil
+	}
+	pathArg = bind(wargs[0])
+	if pathArg == nil {
+		return nil, nil, false
+	}
+	if k, isC := strip(wargs[1]).(*ssa.Const); isC {
+		return pathArg, k, true
+	}
+	env := func(v ssa.Value) (constant.Value, bool) {
+		if a := bind(v); a != nil {
+			if k, isC := strip(a).(*ssa.Const); isC && k.Value != nil {
+				return k.Value, true
+			}
+		}
+		return nil, false
+	}
+	var mode *ssa.Const
+	for _, p := range evalPaths(g, env, 512) {
+		through := false
+		for _, b := range p.Blocks {
+			if b == wc.Block() {
+				through = true
+			}
+		}
+		if !through {
+			continue
+		}
+		v := valueOnPath(wargs[1], p.Blocks)
+		if a := bind(v); a != nil {
+			v = a
+		}
+		k, isC := strip(v).(*ssa.Const)
+		if !isC || k.Value == nil {
+			return pathArg, wargs[1], true // not a constant: reported by the caller
+		}
+		if mode != nil && !constant.Compare(mode.Value, token.EQL, k.Value) {
+			return pathArg, wargs[1], true
+		}
+		mode = k
+	}
+	if mode == nil {
+		return nil, nil, false
+	}
+	return pathArg, mode, true
 }
